@@ -23,6 +23,7 @@ func main() {
 	replay := flag.String("replay", "", "replay file: re-evaluate that obligation on the current tree")
 	verif := flag.String("verif", "", "verif dir (default: parent of the binary's dir)")
 	list := flag.Bool("list", false, "list registered properties")
+	goarch := flag.String("goarch", "", "analyse another GOARCH (second build configuration, e.g. 386)")
 	debug := flag.String("debug", "", "debug dump, e.g. errflow:internal/db/...,internal/core/...")
 	flag.Parse()
 	if *list {
@@ -61,7 +62,11 @@ func main() {
 		ids = rules.IDs()
 	}
 	t0 := time.Now()
-	p, err := eng.Load(*repo)
+	var extra []string
+	if *goarch != "" {
+		extra = append(extra, "GOARCH="+*goarch, "CGO_ENABLED=0")
+	}
+	p, err := eng.Load(*repo, extra...)
 	if err != nil {
 		for _, id := range ids {
 			fmt.Printf("VIOLATION property=%s replay=%s\n", id, "load-failed")
